@@ -566,7 +566,7 @@ def _record_chunk(args):
 
 
 def stage_trace(ctx):
-    n = 1500 if ctx.quick else 20000
+    n = 4000 if ctx.quick else 30000
     per = 100
     chunks = [(ctx.seed * 1000003 + 31 * i + 3, per) for i in range(n // per)]
     recs = [t for ch in pmap(_record_chunk, chunks) for t in ch]
